@@ -287,25 +287,22 @@ class Model:
                 return Tok(run, None, "u8bad-offmode")
             return Tok(run, [ANY] * len(run), "utf8-invalid", garbage=True, next_lt=0x80)
         if k == "meta":
+            # ESC in front of a token.  Rule (docs: ALT+J -> 'meta j'; tests/test_escapes.py test_esc_meta_1, test_bug_104):
+            # the first event of what follows takes the 'meta ' modifier, unless it is a report, is 'esc' itself or already
+            # carries 'meta ' - then the ESC is its own 'esc' event in front of it.  Nothing else of the inner run changes.
             inner = self.realize(d[1], mode)
             ev = None
             kind = "meta-" + inner.kind
-            if inner.events is not None and not inner.garbage and len(inner.events) == 1:
-                e = inner.events[0]
-                if inner.kind in ("printable", "c0", "utf8", "dbcs", "high-narrow"):
-                    if inner.data[:1] not in (b"[", b"O"):
-                        ev = ["meta " + e]
-                elif inner.kind == "table":
-                    # a key carries 'meta' at most once: ESC in front of a key that already is a meta key is
-                    # reported as its own 'esc' key (tests/test_escapes.py: ESC ESC 1 -> 'esc', 'meta 1')
-                    ev = ["meta " + e] if "meta " not in e else ["esc", e]
-                elif inner.kind in ("x10", "sgr", "cpr"):
-                    ev = ["esc", e]  # reports take no modifier from a preceding ESC (test_bug_104)
-                elif inner.kind.startswith("meta-") and isinstance(e, str) and e.startswith("meta "):
-                    ev = ["esc", e]
-            elif inner.events is not None and not inner.garbage and len(inner.events) == 2 and inner.events[0] == "esc":
-                ev = ["esc", *inner.events]  # ESC ESC ... : each further ESC is one more 'esc'
-            return Tok([ESC, *inner.data], ev, kind, end_only=inner.end_only, next_lt=inner.next_lt)
+            if inner.events:
+                first = inner.events[0]
+                single_key = inner.kind in ("printable", "c0", "utf8", "dbcs", "high-narrow")
+                if first == ANY or (single_key and inner.data[:1] in (b"[", b"O")):
+                    ev = None  # undocumented name / would start a sequence
+                elif isinstance(first, tuple) or first == "esc" or "meta " in first:
+                    ev = ["esc", *inner.events]
+                else:
+                    ev = ["meta " + first, *inner.events[1:]]
+            return Tok([ESC, *inner.data], ev, kind, garbage=inner.garbage, end_only=inner.end_only, next_lt=inner.next_lt)
         if k == "broken":  # ["broken", class, text-after-ESC, end_only]
             cls, seq, end_only = d[1], d[2], bool(d[3])
             ev = self.broken_esc_events(seq) if self.broken_ok(cls, seq, end_only) else None
